@@ -6,11 +6,52 @@
 //! follows the skew chosen by the run's plan.
 
 use crate::rng::Rng;
-use std::cell::RefCell;
-use std::sync::atomic::{AtomicI64, AtomicU64, Ordering};
+use std::cell::{Cell, RefCell};
+use std::sync::atomic::{AtomicI64, AtomicU64, AtomicUsize, Ordering};
 
 thread_local! {
     static ENTROPY: RefCell<Option<Rng>> = const { RefCell::new(None) };
+}
+
+thread_local! {
+    /// Installed on simulated threads: a sleep becomes a scheduling point plus virtual time.
+    static SLEEP_HOOK: RefCell<Option<Box<dyn Fn(u64)>>> = const { RefCell::new(None) };
+    /// Nanoseconds this thread has "slept" virtually; added to its monotonic clock readings.
+    static VIRTUAL_SLEPT_NS: Cell<u64> = const { Cell::new(0) };
+}
+
+pub static VIRTUAL_SLEEPS: AtomicU64 = AtomicU64::new(0);
+/// Number of CPUs reported to the process through sched_getaffinity (0 = the real answer).
+static SIM_CPUS: AtomicUsize = AtomicUsize::new(0);
+
+/// Sleeps of the calling thread no longer block: `hook(ns)` is called instead and the thread's
+/// monotonic clock jumps ahead by the requested time.
+pub fn set_sleep_hook(hook: Option<Box<dyn Fn(u64)>>) {
+    SLEEP_HOOK.with(|h| *h.borrow_mut() = hook);
+    VIRTUAL_SLEPT_NS.with(|v| v.set(0));
+}
+
+pub fn set_cpu_count(n: usize) {
+    SIM_CPUS.store(n, Ordering::SeqCst);
+}
+
+fn virtual_sleep(ns: u64) -> bool {
+    let hooked = SLEEP_HOOK
+        .try_with(|h| {
+            if let Ok(guard) = h.try_borrow() {
+                if let Some(hook) = guard.as_ref() {
+                    hook(ns);
+                    return true;
+                }
+            }
+            false
+        })
+        .unwrap_or(false);
+    if hooked {
+        VIRTUAL_SLEEPS.fetch_add(1, Ordering::Relaxed);
+        let _ = VIRTUAL_SLEPT_NS.try_with(|v| v.set(v.get().saturating_add(ns)));
+    }
+    hooked
 }
 
 pub static ENTROPY_REQUESTS_SIM: AtomicU64 = AtomicU64::new(0);
@@ -57,6 +98,20 @@ pub unsafe extern "C" fn getrandom(buf: *mut u8, len: usize, flags: u32) -> isiz
 #[no_mangle]
 pub unsafe extern "C" fn clock_gettime(clk: libc::clockid_t, ts: *mut libc::timespec) -> libc::c_int {
     let r = libc::syscall(libc::SYS_clock_gettime, clk, ts) as libc::c_int;
+    if r == 0
+        && !ts.is_null()
+        && matches!(
+            clk,
+            libc::CLOCK_MONOTONIC | libc::CLOCK_MONOTONIC_RAW | libc::CLOCK_MONOTONIC_COARSE | libc::CLOCK_BOOTTIME
+        )
+    {
+        let slept = VIRTUAL_SLEPT_NS.try_with(|v| v.get()).unwrap_or(0);
+        if slept > 0 {
+            let total = (*ts).tv_nsec as u64 + slept % 1_000_000_000;
+            (*ts).tv_sec += (slept / 1_000_000_000) as libc::time_t + (total / 1_000_000_000) as libc::time_t;
+            (*ts).tv_nsec = (total % 1_000_000_000) as _;
+        }
+    }
     if r == 0 && clk == libc::CLOCK_REALTIME && !ts.is_null() {
         let n = REALTIME_READS.fetch_add(1, Ordering::Relaxed);
         let mut skew = CLOCK_SKEW_S.load(Ordering::Relaxed);
@@ -66,4 +121,121 @@ pub unsafe extern "C" fn clock_gettime(clk: libc::clockid_t, ts: *mut libc::time
         (*ts).tv_sec += skew as libc::time_t;
     }
     r
+}
+
+#[no_mangle]
+pub unsafe extern "C" fn nanosleep(req: *const libc::timespec, rem: *mut libc::timespec) -> libc::c_int {
+    if !req.is_null() {
+        let ns = ((*req).tv_sec.max(0) as u64).saturating_mul(1_000_000_000) + (*req).tv_nsec.max(0) as u64;
+        if virtual_sleep(ns) {
+            if !rem.is_null() {
+                (*rem).tv_sec = 0;
+                (*rem).tv_nsec = 0;
+            }
+            return 0;
+        }
+    }
+    libc::syscall(libc::SYS_nanosleep, req, rem) as libc::c_int
+}
+
+#[no_mangle]
+pub unsafe extern "C" fn clock_nanosleep(
+    clk: libc::clockid_t,
+    flags: libc::c_int,
+    req: *const libc::timespec,
+    rem: *mut libc::timespec,
+) -> libc::c_int {
+    if !req.is_null() {
+        let mut ns = ((*req).tv_sec.max(0) as u64).saturating_mul(1_000_000_000) + (*req).tv_nsec.max(0) as u64;
+        if flags & libc::TIMER_ABSTIME != 0 {
+            let mut now = libc::timespec { tv_sec: 0, tv_nsec: 0 };
+            clock_gettime(clk, &mut now);
+            let now_ns = (now.tv_sec.max(0) as u64).saturating_mul(1_000_000_000) + now.tv_nsec.max(0) as u64;
+            ns = ns.saturating_sub(now_ns);
+        }
+        if virtual_sleep(ns) {
+            return 0;
+        }
+    }
+    // clock_nanosleep returns the error number instead of setting errno
+    let r = libc::syscall(libc::SYS_clock_nanosleep, clk, flags, req, rem);
+    if r == 0 {
+        0
+    } else {
+        *libc::__errno_location()
+    }
+}
+
+#[no_mangle]
+pub unsafe extern "C" fn sched_getaffinity(
+    pid: libc::pid_t,
+    size: libc::size_t,
+    mask: *mut libc::cpu_set_t,
+) -> libc::c_int {
+    let r = libc::syscall(libc::SYS_sched_getaffinity, pid, size, mask);
+    if r < 0 {
+        return -1;
+    }
+    // like the libc wrapper: clear what the kernel did not write
+    if !mask.is_null() && (r as usize) < size {
+        std::ptr::write_bytes((mask as *mut u8).add(r as usize), 0, size - r as usize);
+    }
+    let want = SIM_CPUS.load(Ordering::Relaxed);
+    if want > 0 && !mask.is_null() {
+        // keep only the first `want` CPUs of the real mask
+        let bytes = std::slice::from_raw_parts_mut(mask as *mut u8, (r as usize).min(size));
+        let mut kept = 0;
+        for byte in bytes.iter_mut() {
+            for bit in 0..8 {
+                if *byte & (1 << bit) != 0 {
+                    if kept < want {
+                        kept += 1;
+                    } else {
+                        *byte &= !(1 << bit);
+                    }
+                }
+            }
+        }
+    }
+    // the raw syscall returns the number of bytes written, the libc wrapper returns 0
+    0
+}
+
+thread_local! {
+    /// How many threads the calling thread has created (through pthread_create) so far.
+    static THREADS_CREATED: Cell<u64> = const { Cell::new(0) };
+}
+
+/// Threads created by the calling thread since it started. A simulated run executes on a fresh
+/// thread, so a non-zero value means the code under test uses helper threads.
+pub fn threads_created_by_current_thread() -> u64 {
+    THREADS_CREATED.try_with(|c| c.get()).unwrap_or(0)
+}
+
+type PthreadCreate = unsafe extern "C" fn(
+    *mut libc::pthread_t,
+    *const libc::pthread_attr_t,
+    extern "C" fn(*mut libc::c_void) -> *mut libc::c_void,
+    *mut libc::c_void,
+) -> libc::c_int;
+
+#[no_mangle]
+pub unsafe extern "C" fn pthread_create(
+    thread: *mut libc::pthread_t,
+    attr: *const libc::pthread_attr_t,
+    start: extern "C" fn(*mut libc::c_void) -> *mut libc::c_void,
+    arg: *mut libc::c_void,
+) -> libc::c_int {
+    static REAL: AtomicUsize = AtomicUsize::new(0);
+    let mut real = REAL.load(Ordering::Relaxed);
+    if real == 0 {
+        real = libc::dlsym(libc::RTLD_NEXT, c"pthread_create".as_ptr()) as usize;
+        if real == 0 {
+            return libc::EAGAIN;
+        }
+        REAL.store(real, Ordering::Relaxed);
+    }
+    let _ = THREADS_CREATED.try_with(|c| c.set(c.get() + 1));
+    let real: PthreadCreate = std::mem::transmute(real);
+    real(thread, attr, start, arg)
 }
